@@ -656,7 +656,9 @@ class Interp(InterpBase):
         elif isinstance(s, ast.Nonlocal):
             frame.vars.setdefault("__nonlocal__", set()).update(s.names)
         elif isinstance(s, ast.Global):
-            raise Unsupported("global statement", s, fi)
+            if not all(n in frame.module.constants for n in s.names):
+                raise Unsupported("global statement for a name that is not a module-level variable", s, fi)
+            frame.vars.setdefault("__global__", set()).update(s.names)
         elif isinstance(s, (ast.With, ast.AsyncWith)):
             self.exec_with(s, frame, 0)
         else:
@@ -1417,6 +1419,10 @@ class Interp(InterpBase):
     # ------------------------------------------------------------------ assignment
     def assign(self, t: ast.expr, v: Any, frame: Frame) -> None:
         if isinstance(t, ast.Name):
+            if t.id in frame.vars.get("__global__", ()):
+                self.module_global(frame.module, t.id)  # evaluates the initial value first
+                self.modconst[(frame.module.name, t.id)] = v
+                return
             if t.id in frame.vars.get("__nonlocal__", ()):
                 f = frame.parent
                 while f is not None and t.id not in f.vars:
